@@ -100,6 +100,26 @@ cdef long r_break(int a, int b, int c) except? -1:
         n += 1000000
     return n
 
+cdef long r_rebind(int a, int b) except? -1:
+    cdef int i = -99
+    cdef long n = 0
+    for i in range(a, b, 2):
+        n += 1
+        if n == 2:
+            b = a
+        elif n == 3:
+            a = 7
+    return n
+
+cdef long rev_rebind(int a, int b) except? -1:
+    cdef int i = -99
+    cdef long n = 0
+    for i in reversed(range(a, b)):
+        n += 1
+        if n == 1:
+            a = b
+    return n
+
 cdef long rev1(int a, int b) except? -1:
     cdef int i = -99
     cdef long n = 0
@@ -159,6 +179,8 @@ def _rev(s):
 SEQ = {
     "r_cnt": _fwd(1), "r_last": _fwd(1), "r_stop": _fwd(1, with_a=False), "r_step3": _fwd(3), "r_step3_last": _fwd(3),
     "r_neg2": _fwd(-2), "r_neg2_last": _fwd(-2), "r_else": _fwd(3), "r_break": _fwd(2),
+    # the body rebinds the variables the range arguments were read from: CPython evaluated range(a, b) once
+    "r_rebind": _fwd(2), "rev_rebind": _rev(1),
     "rev1": _rev(1), "rev1_last": _rev(1), "rev2": _rev(2), "rev2_last": _rev(2), "rev_neg3": _rev(-3), "rev_neg3_last": _rev(-3),
 }
 
